@@ -135,8 +135,13 @@ MUST_REACH = [
 DOCS = {'quick': 10000, 'thorough': 560000}
 CODEC = {'quick': 200000, 'thorough': 11200000}
 LICENSES = {'quick': 30000, 'thorough': 1400000}
+FACTORY = {'quick': 2000, 'thorough': 100000}
+MULTI = {'quick': 320, 'thorough': 16000}
+LISTS = {'quick': 24000, 'thorough': 1200000}
+LIST_FIELD_CYCLE = ('files', 'files', 'files', 'upstream_contact', 'files_excluded', 'files_included')
 CODEC_BATCH = 250
 LICENSE_BATCH = 100
+LIST_BATCH = 16
 
 # minimum-reach floors, ~50% of what a run on the current tree measures (quick: seed 0 measured; thorough: scaled
 # by the workload ratio and checked against a measured thorough run).  The M.perm* / perm:* / lic:common-indent* /
@@ -289,14 +294,38 @@ LICENSE_FIELDS = {'license': (license_ok, 'license', False), 'comment': (raw_ok,
 INPUTS = ('keepends', 'noends', 'stringio', 'bytes')
 
 
+def _flag_ok(v):
+    return v in (0, 1, True, False, None)
+
+
+def _assignments_ok(assignments):
+    for attr, val in assignments:
+        if attr not in HEADER_FIELDS:
+            return False
+        if val is not None and not HEADER_FIELDS[attr][0](val):
+            return False
+    return True
+
+
+def real_ops(case):
+    """The ops whose paragraph is added to the document (a 'decoy' paragraph is
+    created through the same factory but never added)."""
+    return [op for op in case.get('ops', []) if not op.get('decoy')]
+
+
 def spec_in_domain(case):
     try:
         if case.get('input') not in INPUTS:
             return False
-        for attr, val in case.get('header', []):
-            if attr not in HEADER_FIELDS:
+        if not _assignments_ok(case.get('header', [])):
+            return False
+        for assignments in case.get('hdecoys', []):
+            if not _assignments_ok(assignments):
                 return False
-            if val is not None and not HEADER_FIELDS[attr][0](val):
+        if case.get('hdr') not in (None, 'own'):
+            return False
+        for flag in ('early', 'nonstrict', 'late_after_dump'):
+            if not _flag_ok(case.get(flag)):
                 return False
         for op in case.get('ops', []):
             table = FILES_FIELDS if op['t'] == 'F' else LICENSE_FIELDS if op['t'] == 'L' else None
@@ -310,6 +339,8 @@ def spec_in_domain(case):
                     return False
             if 'pos' in op and (not isinstance(op['pos'], int) or isinstance(op['pos'], bool)):
                 return False
+            if not _flag_ok(op.get('decoy')) or not _flag_ok(op.get('reuse')):
+                return False
             for attr, val in op.get('then', []):
                 if attr not in table:
                     return False
@@ -319,9 +350,44 @@ def spec_in_domain(case):
                         return False
                 elif not validator(val):
                     return False
+        real = real_ops(case)
+        for target, attr, val in case.get('late', []):
+            if target == 'H':
+                if not _assignments_ok([[attr, val]]):
+                    return False
+                continue
+            if not isinstance(target, int) or isinstance(target, bool) or not 0 <= target < len(real):
+                return False
+            table = FILES_FIELDS if real[target]['t'] == 'F' else LICENSE_FIELDS
+            if attr not in table:
+                return False
+            validator, _kind, allow_none = table[attr]
+            if val is None:
+                if not allow_none:
+                    return False
+            elif not validator(val):
+                return False
         return True
     except (KeyError, TypeError, AttributeError, ValueError):
         return False
+
+
+def multi_in_domain(case):
+    docs = case.get('docs')
+    return isinstance(docs, list) and 1 <= len(docs) <= 8 and all(
+        isinstance(d, dict) and d.get('kind') == 'doc' and spec_in_domain(d) for d in docs)
+
+
+LIST_FIELDS = {'files': 'patterns', 'upstream_contact': 'lines', 'files_excluded': 'lines', 'files_included': 'lines'}
+
+
+def lists_in_domain(case):
+    kind = LIST_FIELDS.get(case.get('field'))
+    lists = case.get('lists')
+    if kind is None or not isinstance(lists, list) or not lists:
+        return False
+    ok = patterns_ok if kind == 'patterns' else linelist_ok
+    return all(ok(l) for l in lists)
 
 
 # ---------------------------------------------------------------------------
@@ -578,6 +644,261 @@ def gen_doc(r):
     return {'kind': 'doc', 'input': r.choice(INPUTS), 'header': header, 'ops': ops}
 
 
+# ---------------------------------------------------------------------------
+# list entries with separator-like punctuation (the class a "tolerant" list reader splits at or strips)
+
+PUNCT_TAILS = [',', ';', ':', '.', '\\', ',', ';', ':', '.', '\\', ',,', '.,', ';.', '!', '?', ')', ']', '}', '"', "'",
+               '|', '&', '=', '-', '+', '/', '\u3001', '\uff0c', '\uff1b', '\uff1a', '\u3002']
+PUNCT_HEADS = [',', ',', ';', ':', '.', '\\', '(', '[', '{', '"', "'", '-', '!', '#', '=', '|', '\uff0c']
+PUNCT_LONE = [',', ';', ',', ';', ':', '.', '\\\\', ',,', ';;', '::', '..', '...', '\\', '|', '&', '-', '"', "'", '""',
+              "''", '()', '[]', '{}', '#', '!', '=', '\uff0c', '\u3001', ',;', '.,', ':,']
+PUNCT_WHOLE = ['data/table_a,b,', 'a,b', 'x;y', 'k:v', 'a,b,c', 'a,,b', '{a,b}', '[a,b]', '(a;b)', 'a|b', 'a=b', "it's",
+               '"a,b"', 'a\\,b', "'a", '"b', 'src/*.c,', 'debian/*;', '*,', '?;', '*.', '\\*,', 'lib/*.so.', 'C:',
+               'c:\\', 'a\\\\', 'http://example.org/?a=1,2;3', 'data/table_a,b', ',a,', ';a;', 'a.,', 'x,y,', ',x,y']
+PUNCT_STEMS = ['a', 'src/*.c', 'debian/*', 'data/table_a,b', 'foo-bar', '\u00e9', 'x.y', 'lib/*', '*', 'README',
+               'doc/a_b', 'v1.0', '?', 'po/*.po']
+# complete small sub-space: every list of 1..3 entries over this alphabet goes through the Files getter
+PUNCT_ENUM = ['a', ',', ';', 'a,', ',a', 'a;', 'a:', 'a.', 'a\\', 'a,b', ':', '.', 'data/table_a,b,']
+# line-based lists (Upstream-Contact, Files-Excluded, Files-Included): every list of 1..2 entries
+PUNCT_ENUM_LINES = ['a', ',', ';', 'a,', ',a', 'a;', 'a:', 'a.', 'a\\', 'a, b', 'a ; b', 'A B <a@b.example>,', 'x y;']
+LINE_ENTRIES = ['Jane Doe <jane@example.org>,', 'Doe, Jane <jd@example.org>', 'Doe, Jane; Roe, Richard', 'a, b', 'a ,b',
+                'a ; b', 'x y;', 'x y:', 'x y.', 'x y\\', ', x', '; x', 'x ,', 'x  ,  y', 'a,b c,d', 'A. N. Other,',
+                'see: AUTHORS;', '"Doe, J." <j@example.org>', 'one, two, three,', 'src/*.c, src/*.h', 'lib/*;']
+
+
+def gen_punct_token(r):
+    k = r.random()
+    if k < 0.40:
+        return r.choice(PUNCT_STEMS) + r.choice(PUNCT_TAILS)
+    if k < 0.54:
+        return r.choice(PUNCT_HEADS) + r.choice(PUNCT_STEMS)
+    if k < 0.70:
+        return r.choice(PUNCT_LONE)
+    if k < 0.90:
+        return r.choice(PUNCT_WHOLE)
+    return r.choice(PUNCT_HEADS) + r.choice(PUNCT_STEMS) + r.choice(PUNCT_TAILS)
+
+
+def gen_punct_patterns(r):
+    """A pattern list in which at least one entry carries separator-like
+    punctuation (first / middle / last / only position)."""
+    n = r.choice([1, 1, 2, 2, 3, 3, 4, 5, 6])
+    ps = [gen_punct_token(r) if r.random() < 0.55 else r.choice(PATTERN_ATOMS) for _ in range(n)]
+    ps[r.choice([0, n - 1, r.randrange(n)])] = gen_punct_token(r)
+    return ps
+
+
+def gen_punct_entry(r):
+    k = r.random()
+    if k < 0.35:
+        return r.choice(LINE_ENTRIES)
+    if k < 0.65:
+        return gen_punct_token(r)
+    words = [gen_punct_token(r) if r.random() < 0.5 else r.choice(['x', 'Jane', 'Doe', '<a@b.example>', 'and'])
+             for _ in range(r.randint(2, 4))]
+    return r.choice([' ', ' ', ', ', ' ; ', '  ']).join(words).strip()
+
+
+def gen_punct_linelist(r):
+    n = r.choice([1, 1, 2, 2, 3, 4])
+    es = [gen_punct_entry(r) if r.random() < 0.6 else gen_single(r) for _ in range(n)]
+    es[r.choice([0, n - 1, r.randrange(n)])] = gen_punct_entry(r)
+    return es
+
+
+_ORDINARY = set('*?/_-')
+
+
+def punct_classes(entry):
+    """Separator-like punctuation classes one list entry shows (empty set: none)."""
+    cls = set()
+    if not entry:
+        return cls
+    last, first = entry[-1], entry[0]
+    tails = {',': 'trailing-comma', ';': 'trailing-semicolon', ':': 'trailing-colon', '.': 'trailing-dot',
+             '\\': 'trailing-backslash'}
+    heads = {',': 'leading-comma', ';': 'leading-semicolon'}
+    if entry in (',', ';'):
+        cls.add('lone-comma' if entry == ',' else 'lone-semicolon')
+    if all(not ch.isalnum() and ch not in _ORDINARY for ch in entry):
+        cls.add('only-punctuation')
+    if len(entry) > 1:
+        if last in tails:
+            cls.add(tails[last])
+        elif not last.isalnum() and last not in _ORDINARY:
+            cls.add('trailing-other')
+        if first in heads:
+            cls.add(heads[first])
+        elif not first.isalnum() and first not in _ORDINARY and first != '.':
+            cls.add('leading-other')
+    inner = entry[1:-1]
+    if ',' in inner:
+        cls.add('internal-comma')
+    if ';' in inner:
+        cls.add('internal-semicolon')
+    if any(ch in entry for ch in '\u3001\uff0c\uff1b\uff1a\u3002'):
+        cls.add('fullwidth-separator')
+    if '"' in entry or "'" in entry:
+        cls.add('quote')
+    return cls
+
+
+def list_punct_classes(entries):
+    """Classes over a whole list, plus the position of the punctuated entries."""
+    cls = set()
+    for i, e in enumerate(entries):
+        pc = punct_classes(e)
+        if pc:
+            cls |= pc
+            if len(entries) == 1:
+                cls.add('at-only-entry')
+            elif i == 0:
+                cls.add('at-first-entry')
+            elif i == len(entries) - 1:
+                cls.add('at-last-entry')
+            else:
+                cls.add('at-middle-entry')
+    return cls
+
+
+# ---------------------------------------------------------------------------
+# "factory" documents: several paragraphs / headers created by the same factories, values recurring between them
+
+def _pool_license(r, syns, texts):
+    return [r.choice(syns), r.choice(texts)]
+
+
+def gen_factory_doc(r, pool=None, small=False):
+    """A document with 2..5 stand-alone License paragraphs interleaved with Files
+    paragraphs; licences / texts / pattern lists are drawn from a small per-case
+    pool so that equal synopses, equal texts and fully equal values recur between
+    paragraphs created by the same factory; some paragraphs (and Header objects)
+    are created but never added (decoys); assignments happen late."""
+    if pool is None:
+        pool = gen_pool(r)
+    syns, texts, plists = pool
+    nl = r.choice([2, 2, 2, 3, 3, 4, 5]) if not small else r.choice([1, 2, 2, 3])
+    nf = r.choice([0, 1, 2, 2, 3, 4]) if not small else r.choice([0, 1, 1, 2])
+    kinds = ['F'] * nf + ['L'] * nl
+    r.shuffle(kinds)
+    ops = []
+    for t in kinds:
+        if t == 'F':
+            files = list(r.choice(plists)) if r.random() < 0.5 else gen_punct_patterns(r)
+            op = {'t': 'F', 'files': files, 'copyright': gen_raw(r, 3, copyright_like=True),
+                  'license': _pool_license(r, syns, texts), 'then': []}
+            if r.random() < 0.2:
+                op['then'].append(['files', gen_punct_patterns(r) if r.random() < 0.7 else list(r.choice(plists))])
+            if r.random() < 0.15:
+                op['then'].append(['license', _pool_license(r, syns, texts)])
+        else:
+            op = {'t': 'L', 'license': _pool_license(r, syns, texts), 'then': []}
+            if r.random() < 0.15:
+                op['then'].append(['license', _pool_license(r, syns, texts)])
+        if r.random() < 0.25:
+            op['then'].append(['comment', gen_raw(r, 2)])
+        if r.random() < 0.4:
+            op['reuse'] = 1
+        ops.append(op)
+    # decoys: created through the same factories, never added
+    for _ in range(r.choice([0, 0, 1, 1, 2])):
+        if r.random() < 0.5:
+            op = {'t': 'L', 'license': _pool_license(r, syns, texts), 'then': [], 'decoy': 1}
+        else:
+            op = {'t': 'F', 'files': gen_punct_patterns(r), 'copyright': gen_raw(r, 2, copyright_like=True),
+                  'license': _pool_license(r, syns, texts), 'then': [], 'decoy': 1}
+        if r.random() < 0.3:
+            op['then'].append(['comment', gen_raw(r, 2)])
+        ops.insert(r.randint(0, len(ops)), op)
+    for op in ops:
+        op['pos'] = r.randrange(1000)
+    header = []
+    for a in ('upstream_name', 'upstream_contact', 'files_excluded', 'files_included', 'license', 'comment'):
+        if r.random() < (0.45 if a != 'comment' else 0.2):
+            header.append([a, _gen_factory_header_value(r, a, syns, texts)])
+    r.shuffle(header)
+    case = {'kind': 'doc', 'input': r.choice(INPUTS), 'header': header, 'ops': ops,
+            'early': int(r.random() < 0.6), 'nonstrict': 1}
+    if r.random() < 0.5:
+        case['hdr'] = 'own'
+    hdecoys = []
+    for _ in range(r.choice([0, 0, 1, 2])):
+        assignments = []
+        for a in ('upstream_name', 'upstream_contact', 'files_excluded', 'license'):
+            if r.random() < 0.5:
+                assignments.append([a, _gen_factory_header_value(r, a, syns, texts)])
+        hdecoys.append(assignments)
+    if hdecoys:
+        case['hdecoys'] = hdecoys
+    # late assignments (after every paragraph has been created and added)
+    nreal = len([op for op in ops if not op.get('decoy')])
+    late = []
+    for _ in range(r.choice([0, 1, 1, 2, 3])):
+        if r.random() < 0.2:
+            a = r.choice(['upstream_name', 'upstream_contact', 'files_excluded', 'license'])
+            late.append(['H', a, None if r.random() < 0.2 else _gen_factory_header_value(r, a, syns, texts)])
+            continue
+        k = r.randrange(nreal)
+        t = [op for op in ops if not op.get('decoy')][k]['t']
+        k2 = r.random()
+        if k2 < 0.45:
+            late.append([k, 'license', _pool_license(r, syns, texts)])
+        elif k2 < 0.7 and t == 'F':
+            late.append([k, 'files', gen_punct_patterns(r) if r.random() < 0.6 else list(r.choice(plists))])
+        elif k2 < 0.9:
+            late.append([k, 'comment', gen_raw(r, 2)])
+        else:
+            late.append([k, 'comment', None])
+    if late:
+        case['late'] = late
+        if r.random() < 0.35:
+            case['late_after_dump'] = 1
+    return case
+
+
+def _gen_factory_header_value(r, attr, syns, texts):
+    if attr == 'license':
+        return _pool_license(r, syns, texts)
+    if attr in ('upstream_contact', 'files_excluded', 'files_included'):
+        return gen_punct_linelist(r)
+    return gen_header_value(r, attr)
+
+
+def gen_pool(r):
+    syns = [r.choice(SYNOPSES) for _ in range(r.choice([1, 2, 2, 3]))]
+    if r.random() < 0.3:
+        syns.append(syns[0].swapcase() if syns[0].swapcase() != syns[0] else 'Expat')
+    texts = [gen_text(r, 5) for _ in range(r.choice([2, 2, 3]))]
+    plists = [gen_punct_patterns(r) if r.random() < 0.7 else gen_patterns(r) for _ in range(r.choice([1, 2, 3]))]
+    return syns, texts, plists
+
+
+def gen_multi(r):
+    pool = gen_pool(r)
+    docs = [gen_factory_doc(r, pool, small=True) for _ in range(r.choice([2, 2, 3, 3, 4]))]
+    for d in docs:
+        d.pop('late_after_dump', None)
+    return {'kind': 'multi', 'docs': docs}
+
+
+def gen_list_batch(r, field, n):
+    if field == 'files':
+        return [gen_punct_patterns(r) if r.random() < 0.8 else gen_patterns(r) for _ in range(n)]
+    return [gen_punct_linelist(r) if r.random() < 0.8 else gen_linelist(r, 'contact') for _ in range(n)]
+
+
+def enum_punct_lists():
+    """(field, list) for the complete small sub-spaces."""
+    import itertools
+    for n in (1, 2, 3):
+        for t in itertools.product(PUNCT_ENUM, repeat=n):
+            yield 'files', list(t)
+    for field in ('upstream_contact', 'files_excluded', 'files_included'):
+        for n in (1, 2):
+            for t in itertools.product(PUNCT_ENUM_LINES, repeat=n):
+                yield field, list(t)
+
+
 CODEC_ALPHABET = ['', ' ', '.', ' .', 'a', ' a', 'a ', '..', '\t', 'a b', '. ']
 CODEC_EXTRA = ['\ta', 'a\t', '  ', ' \t', '. .', '.a', '#', ' #', 'K: v', ' K: v', 'é', ' é ', '\u00a0',
                'a\u00a0', '  a  ', '...', ' . ', '\t.', '-- ', 'granted,  ', ' ..', 'x' * 90, '-', ':']
@@ -676,6 +997,11 @@ def doc_features(final):
                 feats.add('files-single')
             else:
                 feats.add('files-multi')
+            for cl in list_punct_classes(val):
+                feats.add('punct-files-' + cl)
+        elif kind == 'lines':
+            for cl in list_punct_classes(val):
+                feats.add('punct-lines-' + cl)
 
     for attr, val in final['header'].items():
         kind = HEADER_FIELDS[attr][1]
@@ -695,21 +1021,40 @@ def doc_features(final):
 # ---------------------------------------------------------------------------
 # the document check (pure: returns findings, reports nothing)
 
-def final_values(case):
-    """What the generator says the document contains (last assignment wins)."""
+def _op_vals(op):
+    if op['t'] == 'F':
+        vals = {'files': op['files'], 'copyright': op['copyright'], 'license': op['license'], 'comment': None}
+    else:
+        vals = {'license': op['license'], 'comment': None}
+    return vals
+
+
+def final_values(case, late=True):
+    """What the generator says the document contains (last assignment wins).
+    'paras' are the paragraphs that are added (in order of addition), 'decoys'
+    the ones created but never added, 'hdecoys' stand-alone Header objects."""
     header = {}
     for attr, val in case.get('header', []):
         header[attr] = val
-    paras = []
+    paras, decoys = [], []
     for op in case.get('ops', []):
-        if op['t'] == 'F':
-            vals = {'files': op['files'], 'copyright': op['copyright'], 'license': op['license'], 'comment': None}
-        else:
-            vals = {'license': op['license'], 'comment': None}
+        vals = _op_vals(op)
         for attr, val in op.get('then', []):
             vals[attr] = val
-        paras.append((op['t'], vals))
-    return {'header': header, 'paras': paras}
+        (decoys if op.get('decoy') else paras).append((op['t'], vals))
+    if late:
+        for target, attr, val in case.get('late', []):
+            if target == 'H':
+                header[attr] = val
+            else:
+                paras[target][1][attr] = val
+    hdecoys = []
+    for assignments in case.get('hdecoys', []):
+        cur = {}
+        for attr, val in assignments:
+            cur[attr] = val
+        hdecoys.append(cur)
+    return {'header': header, 'paras': paras, 'decoys': decoys, 'hdecoys': hdecoys}
 
 
 def _to_lib(kind, val, copyright):
@@ -785,6 +1130,44 @@ def _kind_of(p, copyright):
     return '?'
 
 
+def _compare_obj(p, t, vals, where, label, copyright, out):
+    """Read every typed property of one paragraph object and compare it with the
+    generator's value; returns the number of values compared."""
+    table = HEADER_FIELDS if t == 'H' else FILES_FIELDS if t == 'F' else LICENSE_FIELDS
+    try:
+        got_vals = _read_values(p, t, copyright)
+    except Exception as e:
+        out.append(('%s-getter-raises/%s' % (where, type(e).__name__),
+                    'paragraph %s (%s): reading properties raised %r' % (label, t, e)))
+        return 0
+    n = 0
+    for attr in table:
+        kind = table[attr][1]
+        exp = vals.get(attr)
+        got = got_vals[attr]
+        n += 1
+        if not _same(kind, exp, got, copyright):
+            out.append((_field_key(t, attr, kind, exp, got, copyright, where),
+                        'paragraph %s (%s) .%s: generator wrote %r, %s document has %r'
+                        % (label, t, attr, exp, where, got)))
+    if t == 'H' and p.format != copyright._CURRENT_FORMAT:
+        out.append(('%s-header-format-differs' % where, 'Format is %r' % (p.format,)))
+    return n
+
+
+class _Rejected(Exception):
+    pass
+
+
+def _lib(fn, *args):
+    """One call into the library during the build; an exception there means a
+    valid value was rejected (harness errors are never blamed on the library)."""
+    try:
+        return fn(*args)
+    except Exception as e:
+        raise _Rejected(e)
+
+
 def check_doc(case, stats=None):
     """Build, dump, re-parse, compare.  Returns a list of (key, message).
     A firing auxiliary contract (K.codec) is turned into a finding of this
@@ -798,77 +1181,230 @@ def check_doc(case, stats=None):
         return [(e.key, e.msg)]
 
 
+class _State(object):
+    """One built document and every object the build created (kept alive)."""
+
+    def __init__(self):
+        self.c = None
+        self.header = None
+        self.hcur = {}
+        self.built = []        # [obj, t, current expected vals]  (added paragraphs, in order of addition)
+        self.decoys = []       # [obj, t, vals, label]            (created, never added)
+        self.hdecoys = []      # [obj, 'H', vals, label]
+        self.watched = 0       # values compared on objects other than the one just created / assigned
+        self.verified = set()  # ids of objects whose values were all as written the last time they were read
+        self.bad = set()       # ids of objects already reported (not reported again by watch)
+
+    def objects(self):
+        yield self.header, 'H', self.hcur, 'header'
+        for k, (p, t, vals) in enumerate(self.built):
+            yield p, t, vals, 'added#%d' % k
+        for p, t, vals, label in self.decoys:
+            yield p, t, vals, label
+        for p, t, vals, label in self.hdecoys:
+            yield p, t, vals, label
+
+    def check(self, p, t, vals, where, label, copyright, out):
+        """Compare one object; remember whether it ever read correctly.  A
+        difference on an object that read correctly before is reported as
+        'watched-*' (it changed while OTHER objects were created / assigned);
+        one on an object never seen correct is a plain conversion difference."""
+        if id(p) in self.bad:
+            return 0
+        if where == 'watched' and id(p) not in self.verified:
+            where = 'built'
+        before = len(out)
+        n = _compare_obj(p, t, vals, where, label, copyright, out)
+        if len(out) > before:
+            self.bad.add(id(p))
+            self.verified.discard(id(p))
+        else:
+            self.verified.add(id(p))
+        return n
+
+    def watch(self, copyright, out, skip=None, where='watched'):
+        """Every object created so far still shows its own values."""
+        for p, t, vals, label in self.objects():
+            if p is not None and p is not skip:
+                self.watched += self.check(p, t, vals, where, label, copyright, out)
+
+
+def _build(case, copyright, out, stats, licobjs=None):
+    """Build the document of one spec through the public API.  Returns a _State,
+    or None with the reason appended to `out`."""
+    early = bool(case.get('early'))
+    st = _State()
+    licobjs = {} if licobjs is None else licobjs
+    reused = [0]
+
+    def lic(val, reuse):
+        key = (val[0], val[1])
+        if reuse and key in licobjs:
+            reused[0] += 1
+            return licobjs[key]       # the SAME License object handed to several create() calls / setters
+        obj = _lib(copyright.License, val[0], val[1])
+        licobjs[key] = obj
+        return obj
+
+    def to_lib(kind, val, reuse=False):
+        if val is not None and kind == 'license':
+            return lic(val, reuse)
+        return _to_lib(kind, val, copyright)
+
+    def header_decoy(k):
+        h = _lib(copyright.Header)
+        cur = {}
+        st.hdecoys.append([h, 'H', cur, 'decoy-header#%d' % k])
+        for attr, val in case['hdecoys'][k]:
+            _lib(setattr, h, attr, to_lib(HEADER_FIELDS[attr][1], val))
+            cur[attr] = val
+
+    try:
+        nh = len(case.get('hdecoys', []))
+        for k in range(0, nh, 2):
+            header_decoy(k)
+        c = st.c = _lib(copyright.Copyright)
+        own = case.get('hdr') == 'own'
+        h = st.header = _lib(copyright.Header) if own else c.header
+        for attr, val in case.get('header', []):
+            _lib(setattr, h, attr, to_lib(HEADER_FIELDS[attr][1], val))
+            st.hcur[attr] = val
+        if own:
+            c.header = h
+        for k in range(1, nh, 2):
+            header_decoy(k)
+        if early:
+            st.watch(copyright, out, where='created')
+        nd = 0
+        for op in case.get('ops', []):
+            reuse = bool(op.get('reuse'))
+            vals = _op_vals(op)
+            if op['t'] == 'F':
+                p = _lib(copyright.FilesParagraph.create, list(op['files']), op['copyright'], lic(op['license'], reuse))
+                table = FILES_FIELDS
+            else:
+                p = _lib(copyright.LicenseParagraph.create, lic(op['license'], reuse))
+                table = LICENSE_FIELDS
+            label = 'created-op'
+            if early:
+                st.check(p, op['t'], vals, 'created', label, copyright, out)
+            for attr, val in op.get('then', []):
+                _lib(setattr, p, attr, to_lib(table[attr][1], val, reuse))
+                vals[attr] = val
+            if op.get('decoy'):
+                st.decoys.append([p, op['t'], vals, 'decoy#%d' % nd])
+                nd += 1
+            else:
+                if op['t'] == 'F':
+                    _lib(c.add_files_paragraph, p)
+                else:
+                    _lib(c.add_license_paragraph, p)
+                st.built.append([p, op['t'], vals])
+            if early:
+                if op.get('then'):
+                    st.check(p, op['t'], vals, 'created', label, copyright, out)
+                st.watch(copyright, out, skip=p)
+    except _Rejected as e:
+        out.append(('build-rejects-valid-value/%s' % type(e.args[0]).__name__,
+                    'building the document raised %r' % (e.args[0],)))
+        return None
+    if stats is not None:
+        stats['reused'] = stats.get('reused', 0) + reused[0]
+    st.licobjs = licobjs
+    return st
+
+
+def _apply_late(case, st, copyright, out):
+    """Assignments made after every paragraph has been created and added: the
+    target shows the new value, every other object keeps its own."""
+    if case.get('late'):
+        st.watch(copyright, out, where='built')       # baseline: what every object shows before the late assignments
+    for target, attr, val in case.get('late', []):
+        if target == 'H':
+            p, t, vals, table = st.header, 'H', st.hcur, HEADER_FIELDS
+        else:
+            p, t, vals = st.built[target]
+            table = FILES_FIELDS if t == 'F' else LICENSE_FIELDS
+        try:
+            v = val
+            if val is not None and table[attr][1] == 'license':
+                key = (val[0], val[1])
+                v = st.licobjs.get(key)
+                if v is None:
+                    v = st.licobjs[key] = copyright.License(val[0], val[1])
+            else:
+                v = _to_lib(table[attr][1], val, copyright)
+            setattr(p, attr, v)
+        except Exception as e:
+            out.append(('build-rejects-valid-value/%s' % type(e).__name__,
+                        'assigning .%s = %r raised %r' % (attr, val, e)))
+            return False
+        vals[attr] = val
+        st.check(p, t, vals, 'assigned', 'target-of-late-assignment', copyright, out)
+        st.watch(copyright, out, skip=p)
+    return True
+
+
 def _check_doc(case, stats):
     from debian import copyright
     out = []
-    final = final_values(case)
+    st = _build(case, copyright, out, stats)
+    if st is None or out:
+        return out
+    if case.get('late'):
+        if case.get('late_after_dump'):
+            # the document is dumped / re-parsed once BEFORE the late assignments ...
+            _verify(case, st, copyright, out, None, perm=False)
+            if out:
+                return out
+            if stats is not None:
+                stats['late_after_dump'] = 1
+        if not _apply_late(case, st, copyright, out) or out:
+            return out
+    # ... and (again) with the final values
+    _verify(case, st, copyright, out, stats, perm=True)
+    if stats is not None:
+        stats['watched'] = st.watched
+    return out
 
-    # ---- build through the public API
-    try:
-        c = copyright.Copyright()
-        h = c.header
-        for attr, val in case.get('header', []):
-            setattr(h, attr, _to_lib(HEADER_FIELDS[attr][1], val, copyright))
-        built = []
-        for op in case.get('ops', []):
-            if op['t'] == 'F':
-                p = copyright.FilesParagraph.create(list(op['files']), op['copyright'],
-                                                    copyright.License(op['license'][0], op['license'][1]))
-                table = FILES_FIELDS
-            else:
-                p = copyright.LicenseParagraph.create(copyright.License(op['license'][0], op['license'][1]))
-                table = LICENSE_FIELDS
-            for attr, val in op.get('then', []):
-                setattr(p, attr, _to_lib(table[attr][1], val, copyright))
-            if op['t'] == 'F':
-                c.add_files_paragraph(p)
-            else:
-                c.add_license_paragraph(p)
-            built.append(p)
-    except Exception as e:      # every generated value is valid for its field
-        return [('build-rejects-valid-value/%s' % type(e).__name__, 'building the document raised %r' % (e,))]
+
+def _verify(case, st, copyright, out, stats, perm=True):
+    """Built document against the spec, dump, strict (and non-strict) re-parse,
+    re-dump; appends findings to `out`."""
+    c = st.c
+    built = [p for p, _t, _v in st.built]
+    final_paras = [(t, vals) for _p, t, vals in st.built]
 
     # ---- the built document: order by identity, values must be the generator's (inverse law of the conversions)
     seq = list(c.all_paragraphs())
-    if not seq or seq[0] is not c.header or _kind_of(seq[0], copyright) != 'H':
-        return [('built-document-header-not-first', 'all_paragraphs() does not start with the header')]
+    if not seq or seq[0] is not c.header or seq[0] is not st.header or _kind_of(seq[0], copyright) != 'H':
+        out.append(('built-document-header-not-first', 'all_paragraphs() does not start with the header'))
+        return
     ids = [id(p) for p in built]
     order = []
     for p in seq[1:]:
         if id(p) not in ids:
-            return [('built-document-has-foreign-paragraph', 'all_paragraphs() yields a paragraph that was never added')]
+            out.append(('built-document-has-foreign-paragraph', 'all_paragraphs() yields a paragraph that was never added'))
+            return
         order.append(ids.index(id(p)))
     if sorted(order) != list(range(len(built))):
-        return [('built-document-lost-or-duplicated-paragraph',
-                 'added %d paragraphs, all_paragraphs() yields indices %r' % (len(built), order))]
-    expected = [('H', final['header'])] + [final['paras'][i] for i in order]
+        out.append(('built-document-lost-or-duplicated-paragraph',
+                    'added %d paragraphs, all_paragraphs() yields indices %r' % (len(built), order)))
+        return
+    expected = [('H', st.hcur)] + [final_paras[i] for i in order]
     if stats is not None:
         stats['order'] = order
 
     def compare(objs, where, expected=expected):
         n = 0
         for idx, (p, (t, vals)) in enumerate(zip(objs, expected)):
-            table = HEADER_FIELDS if t == 'H' else FILES_FIELDS if t == 'F' else LICENSE_FIELDS
-            try:
-                got_vals = _read_values(p, t, copyright)
-            except Exception as e:
-                out.append(('%s-getter-raises/%s' % (where, type(e).__name__),
-                            'paragraph #%d (%s): reading properties raised %r' % (idx, t, e)))
-                continue
-            for attr in table:
-                kind = table[attr][1]
-                exp = vals.get(attr)
-                got = got_vals[attr]
-                n += 1
-                if not _same(kind, exp, got, copyright):
-                    out.append((_field_key(t, attr, kind, exp, got, copyright, where),
-                                'paragraph #%d (%s) .%s: generator wrote %r, %s document has %r'
-                                % (idx, t, attr, exp, where, got)))
-            if t == 'H' and p.format != copyright._CURRENT_FORMAT:
-                out.append(('%s-header-format-differs' % where, 'Format is %r' % (p.format,)))
+            n += _compare_obj(p, t, vals, where, '#%d' % idx, copyright, out)
         return n
 
     compare(seq, 'built')
+    # objects that were created by the same factories but never added keep their own values, too
+    for p, t, vals, label in st.decoys + st.hdecoys:
+        st.watched += st.check(p, t, vals, 'watched', label, copyright, out)
 
     # ---- dump
     try:
@@ -876,9 +1412,11 @@ def _check_doc(case, stats):
         f = io.StringIO()
         ret = c.dump(f=f)
     except Exception as e:
-        return [('dump-raises/%s' % type(e).__name__, 'dump() raised %r' % (e,))]
+        out.append(('dump-raises/%s' % type(e).__name__, 'dump() raised %r' % (e,)))
+        return
     if not isinstance(text, str):
-        return [('dump-not-text', 'dump() returned %r' % (type(text),))]
+        out.append(('dump-not-text', 'dump() returned %r' % (type(text),)))
+        return
     if ret is not None or f.getvalue() != text:
         out.append(('dump-to-file-differs-from-dump-to-string', 'dump(f) wrote %r, dump() returned %r' % (f.getvalue(), text)))
 
@@ -887,14 +1425,14 @@ def _check_doc(case, stats):
         c2 = copyright.Copyright(_feed(text, case['input']), strict=True)
     except Exception as e:
         out.append(('strict-reparse-raises/%s' % type(e).__name__, 'dump %r does not parse back: %r' % (text, e)))
-        return out
+        return
     seq2 = list(c2.all_paragraphs())
     kinds2 = [_kind_of(p, copyright) for p in seq2]
     kinds1 = [t for t, _ in expected]
     if kinds2 != kinds1:
         key = 'reparsed-paragraph-count-differs' if len(kinds2) != len(kinds1) else 'reparsed-paragraph-kind-differs'
         out.append((key, 'built %r, re-parsed %r; dump=%r' % (kinds1, kinds2, text)))
-        return out
+        return
     n = compare(seq2, 'reparsed')
     if stats is not None:
         stats['values'] = n
@@ -905,21 +1443,49 @@ def _check_doc(case, stats):
         text2 = c2.dump()
     except Exception as e:
         out.append(('redump-raises/%s' % type(e).__name__, 'dump() of the re-parsed document raised %r' % (e,)))
-        return out
+        return
     if text2 != text:
         out.append(('redump-differs', 'dump %r, dump of re-parsed document %r' % (text, text2)))
     if out:
-        return out          # permuted starting points are only derived from a dump M.doc had no complaint about
+        return              # what follows is only derived from a dump M.doc had no complaint about
+
+    # ---- non-strict re-parse of the same (valid) text: same paragraphs, same typed values, same re-dump
+    if case.get('nonstrict'):
+        mode_n = INPUTS[(INPUTS.index(case['input']) + 2) % len(INPUTS)]
+        try:
+            c5 = copyright.Copyright(_feed(text, mode_n), strict=False)
+            seq5 = list(c5.all_paragraphs())
+        except Exception as e:
+            out.append(('nonstrict-reparse-raises/%s' % type(e).__name__,
+                        'dump %r (strict parse fine) does not parse with strict=False: %r' % (text, e)))
+            return
+        kinds5 = [_kind_of(p, copyright) for p in seq5]
+        if kinds5 != kinds1:
+            out.append(('nonstrict-reparsed-paragraphs-differ', 'built %r, strict=False parse %r; dump=%r'
+                        % (kinds1, kinds5, text)))
+            return
+        n5 = compare(seq5, 'nonstrict-reparsed')
+        try:
+            text5 = c5.dump()
+        except Exception as e:
+            out.append(('nonstrict-redump-raises/%s' % type(e).__name__, 'dump() raised %r' % (e,)))
+            return
+        if text5 != text:
+            out.append(('nonstrict-redump-differs', 'dump %r, dump of the strict=False parse %r' % (text, text5)))
+        if stats is not None:
+            stats['nonstrict_values'] = n5
+        if out:
+            return
 
     # ---- PARSED starting points: the same paragraph texts in another order (License before / between Files)
-    _check_permuted(case, text, order, final, compare, copyright, out, stats)
-    return out
+    if perm:
+        _check_permuted(case, text, order, {'header': st.hcur, 'paras': final_paras}, compare, copyright, out, stats)
 
 
 def permuted_order(case):
     """Op indices in the order the permuted text T2 carries them: by op['pos'],
     ties (and specs without ranks) by order of addition."""
-    ops = case.get('ops', [])
+    ops = real_ops(case)
     return sorted(range(len(ops)), key=lambda i: (ops[i].get('pos', i), i))
 
 
@@ -1048,14 +1614,49 @@ def _drop_line_variants(val, kind):
                 yield val[:i] + val[i + 1:]
 
 
+def _delete_op(c, i):
+    """Remove op i; late assignments addressing it go, later indices move up."""
+    ops = c['ops']
+    if not ops[i].get('decoy'):
+        k = len([op for op in ops[:i] if not op.get('decoy')])
+        late = []
+        for target, attr, val in c.get('late', []):
+            if target == k:
+                continue
+            if target != 'H' and target > k:
+                target -= 1
+            late.append([target, attr, val])
+        if 'late' in c:
+            c['late'] = late
+    del ops[i]
+
+
 def _candidates(case):
     import copy
     ops = case.get('ops', [])
     header = case.get('header', [])
     for i in range(len(ops)):
         c = copy.deepcopy(case)
-        del c['ops'][i]
+        _delete_op(c, i)
         yield c
+    for i in range(len(case.get('hdecoys', []))):
+        c = copy.deepcopy(case)
+        del c['hdecoys'][i]
+        yield c
+    for i in range(len(case.get('late', []))):
+        c = copy.deepcopy(case)
+        del c['late'][i]
+        yield c
+    for flag in ('late_after_dump', 'hdr', 'early', 'nonstrict'):
+        if case.get(flag):
+            c = copy.deepcopy(case)
+            del c[flag]
+            yield c
+    for i, op in enumerate(ops):
+        if op.get('reuse'):
+            c = copy.deepcopy(case)
+            del c['ops'][i]['reuse']
+            yield c
     for i in range(len(header)):
         c = copy.deepcopy(case)
         del c['header'][i]
@@ -1083,6 +1684,13 @@ def _candidates(case):
             c = copy.deepcopy(case)
             c['header'][i][1] = v
             yield c
+    real = real_ops(case)
+    for i, (target, attr, val) in enumerate(case.get('late', [])):
+        table = HEADER_FIELDS if target == 'H' else FILES_FIELDS if real[target]['t'] == 'F' else LICENSE_FIELDS
+        for v in _drop_line_variants(val, table[attr][1]):
+            c = copy.deepcopy(case)
+            c['late'][i][2] = v
+            yield c
 
 
 def shrink(case, key, budget=400):
@@ -1105,6 +1713,233 @@ def shrink(case, key, budget=400):
                 progress = True
                 break
     return cur
+
+
+# ---------------------------------------------------------------------------
+# several documents built one after another in one case, all kept alive
+
+MULTI_SUFFIX = '/only-with-other-documents-built-in-the-same-process'
+
+
+def check_multi(case, stats=None):
+    """Returns a list of (key, message, doc index)."""
+    from .. import contracts
+    from ..core import MonitorViolation
+    try:
+        return _check_multi(case, stats)
+    except MonitorViolation as e:
+        contracts.PENDING[:] = []
+        return [(e.key, e.msg, None)]
+
+
+def _check_multi(case, stats):
+    from debian import copyright
+    docs = case['docs']
+    licobjs = {}
+    states, outs = [], []
+    for doc in docs:
+        o = []
+        st = _build(doc, copyright, o, stats, licobjs)
+        if st is not None and not o:
+            _apply_late(doc, st, copyright, o)
+        states.append(st)
+        outs.append(o)
+    # every object of every document still shows its own values after all the others were built
+    for st, o in zip(states, outs):
+        if st is not None and not o:
+            st.watch(copyright, o)
+    for doc, st, o in zip(docs, states, outs):
+        if st is not None and not o:
+            ds = {} if stats is not None else None
+            _verify(doc, st, copyright, o, ds, perm=False)
+            if stats is not None:
+                stats['values'] = stats.get('values', 0) + ds.get('values', 0) + ds.get('nonstrict_values', 0)
+                stats['docs'] = stats.get('docs', 0) + 1
+    if stats is not None:
+        stats['watched'] = sum(st.watched for st in states if st is not None)
+    return [(k, m, i) for i, o in enumerate(outs) for k, m in o]
+
+
+def shrink_multi(case, key, budget=60):
+    import copy
+    cur = case
+    progress = True
+    while progress and budget > 0 and len(cur['docs']) > 1:
+        progress = False
+        for i in range(len(cur['docs'])):
+            budget -= 1
+            cand = copy.deepcopy(cur)
+            del cand['docs'][i]
+            try:
+                found = check_multi(cand)
+            except Exception:
+                continue
+            if any(k == key for k, _m, _i in found):
+                cur = cand
+                progress = True
+                break
+    return cur
+
+
+# ---------------------------------------------------------------------------
+# list-valued fields through their typed getters: many lists, few objects
+
+def _list_same(L, got):
+    return got is not None and not isinstance(got, str) and list(got) == list(L)
+
+
+def check_lists(case, stats=None):
+    """Each list of the case is (a) given to a FRESH object (FilesParagraph.create /
+    Header() + setter) and read back, (b) assigned to ONE long-lived object and read
+    back twice, (c) written by the fresh object's dump() and read back from a
+    paragraph object constructed over the parsed text; at the end (d) every fresh
+    object still reads its own list and (e) one document holding the objects is
+    dumped and parsed back (strict and non-strict).  Returns (key, msg, index)."""
+    from .. import contracts
+    from ..core import MonitorViolation
+    try:
+        return _check_lists(case, stats)
+    except MonitorViolation as e:
+        contracts.PENDING[:] = []
+        return [(e.key, e.msg, None)]
+
+
+def _check_lists(case, stats):
+    from debian import copyright, deb822
+    field = case['field']
+    lists = case['lists']
+    fname = field.replace('_', '-')
+    is_files = field == 'files'
+    out = []
+    n = {'fresh': 0, 'reassigned': 0, 'reparsed': 0, 'kept': 0, 'doc': 0}
+
+    def fresh(L):
+        if is_files:
+            return copyright.FilesParagraph.create(list(L), 'c', copyright.License('X'))
+        h = copyright.Header()
+        setattr(h, field, list(L))
+        return h
+
+    kept = []
+    longlived = None
+    for i, L in enumerate(lists):
+        try:
+            o = fresh(L)
+            got = getattr(o, field)
+        except Exception as e:
+            out.append(('%s-list-rejected-or-unreadable/%s' % (fname, type(e).__name__),
+                        'list %r: %r' % (L, e), i))
+            continue
+        n['fresh'] += 1
+        if not _list_same(L, got):
+            out.append(('created-%s-list-differs' % fname, 'assigned %r to a new object, getter returns %r' % (L, got), i))
+            continue
+        kept.append((i, L, o))
+        # one long-lived object, re-assigned again and again (list and tuple arguments alternate)
+        try:
+            if longlived is None:
+                longlived = fresh(lists[0])
+            setattr(longlived, field, tuple(L) if i % 2 else list(L))
+            g1 = getattr(longlived, field)
+            g2 = getattr(longlived, field)
+        except Exception as e:
+            out.append(('%s-list-rejected-or-unreadable/%s' % (fname, type(e).__name__),
+                        're-assigning %r: %r' % (L, e), i))
+            continue
+        n['reassigned'] += 1
+        if not _list_same(L, g1):
+            out.append(('reassigned-%s-list-differs' % fname,
+                        'assigned %r to an object that held %r before, getter returns %r'
+                        % (L, lists[i - 1] if i else lists[0], g1), i))
+        elif not _list_same(L, g2):
+            out.append(('second-read-of-%s-list-differs' % fname, 'assigned %r, second read returns %r' % (L, g2), i))
+        # the paragraph's own dump, parsed back into a paragraph object of the same class
+        try:
+            text = o.dump()
+            para = deb822.Deb822(_feed(text, INPUTS[i % len(INPUTS)]))
+            if is_files:
+                o2 = copyright.FilesParagraph(para) if i % 3 else copyright.FilesParagraph(para, strict=False)
+            else:
+                o2 = copyright.Header(para)
+            got2 = getattr(o2, field)
+        except Exception as e:
+            out.append(('paragraph-reparse-of-%s-list-raises/%s' % (fname, type(e).__name__),
+                        'list %r: %r' % (L, e), i))
+            continue
+        n['reparsed'] += 1
+        if not _list_same(L, got2):
+            out.append(('paragraph-reparsed-%s-list-differs' % fname,
+                        'assigned %r, dump %r, getter of the re-parsed paragraph returns %r' % (L, text, got2), i))
+    # (d) every object created above still holds its own list
+    for i, L, o in kept:
+        try:
+            got = getattr(o, field)
+        except Exception as e:
+            out.append(('watched-getter-raises/%s' % type(e).__name__, 'list %r: %r' % (L, e), i))
+            continue
+        n['kept'] += 1
+        if not _list_same(L, got):
+            out.append(('watched-%s-list-differs' % fname,
+                        'object created with %r returns %r after %d more objects were created'
+                        % (L, got, len(kept) - 1), i))
+    # (e) one document with all of them (Files) / with the last header
+    if kept and not out:
+        try:
+            c = copyright.Copyright()
+            if is_files:
+                for _i, _L, o in kept:
+                    c.add_files_paragraph(o)
+                want = [(i, L) for i, L, _o in kept]
+            else:
+                c.header = kept[-1][2]
+                want = [(kept[-1][0], kept[-1][1])]
+            text = c.dump()
+            for strict in (True, False):
+                c2 = copyright.Copyright(_feed(text, INPUTS[(len(lists) + strict) % len(INPUTS)]), strict=strict)
+                objs = list(c2.all_files_paragraphs()) if is_files else [c2.header]
+                where = 'reparsed' if strict else 'nonstrict-reparsed'
+                if len(objs) != len(want):
+                    out.append(('%s-paragraph-count-differs' % where, 'wrote %d Files paragraphs, parsed %d; dump=%r'
+                                % (len(want), len(objs), text), None))
+                    continue
+                for (i, L), o2 in zip(want, objs):
+                    got = getattr(o2, field)
+                    n['doc'] += 1
+                    if not _list_same(L, got):
+                        out.append(('%s-%s-list-differs' % (where, fname),
+                                    'assigned %r, document dump %r, parsed with strict=%r, getter returns %r'
+                                    % (L, text, strict, got), i))
+        except Exception as e:
+            out.append(('list-document-round-trip-raises/%s' % type(e).__name__, '%r' % (e,), None))
+    if stats is not None:
+        stats.update(n)
+    return out
+
+
+def shrink_lists(case, key, index):
+    """Smallest replayable witness: the one list alone if that shows the same
+    mechanism, else the shortest prefix / sub-sequence that does."""
+    def shows(c):
+        try:
+            return any(k == key for k, _m, _i in check_lists(c))
+        except Exception:
+            return False
+    base = {'kind': 'lists', 'field': case['field']}
+    if index is not None:
+        single = dict(base, lists=[case['lists'][index]])
+        if shows(single):
+            return single
+    cur = list(case['lists'])
+    budget = 60
+    i = 0
+    while i < len(cur) and budget > 0 and len(cur) > 1:
+        budget -= 1
+        cand = cur[:i] + cur[i + 1:]
+        if shows(dict(base, lists=cand)):
+            cur = cand
+        else:
+            i += 1
+    return dict(base, lists=cur)
 
 
 # ---------------------------------------------------------------------------
@@ -1254,10 +2089,43 @@ def setup(ctx):
 
 
 def cases(ctx):
-    # 1. documents
+    # 1. documents (the seeded spec stream is the one the module always generated; the flags that steer the
+    #    extra observations - early reads, non-strict re-parse - come from a separate stream)
     n = ctx.size(DOCS['quick'], DOCS['thorough'])
     for i in range(n):
-        yield gen_doc(ctx.rng('doc', i))
+        case = gen_doc(ctx.rng('doc', i))
+        rx = ctx.rng('docx', i)
+        if rx.random() < 0.5:
+            case['early'] = 1
+        if rx.random() < 0.25:
+            case['nonstrict'] = 1
+        yield case
+    # 1b. factory documents: 2..5 stand-alone License paragraphs interleaved with Files paragraphs, recurring values,
+    #     decoys, late assignments, punctuated list entries
+    n = ctx.size(FACTORY['quick'], FACTORY['thorough'])
+    for i in range(n):
+        yield gen_factory_doc(ctx.rng('fdoc', i))
+    # 1c. several documents in one case
+    n = ctx.size(MULTI['quick'], MULTI['thorough'])
+    for i in range(n):
+        yield gen_multi(ctx.rng('multi', i))
+    # 1d. list-valued fields: complete small sub-spaces (sharded), then random batches
+    batches = {}
+    for i, (field, L) in enumerate(enum_punct_lists()):
+        if ctx.mine(i):
+            b = batches.setdefault(field, [])
+            b.append(L)
+            if len(b) == LIST_BATCH:
+                yield {'kind': 'lists', 'field': field, 'lists': b, 'enumerated': True}
+                batches[field] = []
+    for field, b in sorted(batches.items()):
+        if b:
+            yield {'kind': 'lists', 'field': field, 'lists': b, 'enumerated': True}
+    n = ctx.size(LISTS['quick'], LISTS['thorough'])
+    for b in range(0, n, LIST_BATCH):
+        r = ctx.rng('lists', b)
+        field = LIST_FIELD_CYCLE[(b // LIST_BATCH) % len(LIST_FIELD_CYCLE)]
+        yield {'kind': 'lists', 'field': field, 'lists': gen_list_batch(r, field, min(LIST_BATCH, n - b))}
     # 2. codec: complete small sub-space, sharded
     batch = []
     for i, lines in enumerate(enum_codec_lists()):
@@ -1280,6 +2148,161 @@ def cases(ctx):
         yield {'kind': 'license', 'licenses': [gen_license(r) for _ in range(min(LICENSE_BATCH, n - b))]}
 
 
+def _count_factory(ctx, case, stats):
+    """Counters of the factory class for one document spec that was judged."""
+    real = real_ops(case)
+    nl = len([op for op in real if op['t'] == 'L'])
+    if nl >= 2:
+        ctx.count('fact:license-paragraphs>=2')
+        ctx.count('fact:license-paragraphs:%d' % min(nl, 5))
+        final = final_values(case)
+        lics = [tuple(v['license']) for t, v in final['paras'] if t == 'L']
+        syn = [l[0] for l in lics]
+        if len(set(syn)) < len(syn):
+            ctx.count('fact:license-paragraphs-with-equal-synopsis')
+        if len(set(s.lower() for s in syn)) < len(set(syn)):
+            ctx.count('fact:license-paragraphs-with-synopsis-equal-ignoring-case')
+        if len(set(l[1] for l in lics)) < len(lics):
+            ctx.count('fact:license-paragraphs-with-equal-text')
+        if len(set(lics)) < len(lics):
+            ctx.count('fact:license-paragraphs-fully-equal')
+        kinds = [op['t'] for op in real]
+        if 'F' in kinds and any(kinds[i] == 'L' and 'F' in kinds[i + 1:] for i in range(len(kinds))):
+            ctx.count('fact:license-created-before-a-files-paragraph')
+    if len([op for op in real if op['t'] == 'F']) >= 2:
+        ctx.count('fact:files-paragraphs>=2')
+    for op in case.get('ops', []):
+        if op.get('decoy'):
+            ctx.count('fact:decoy-%s' % ('files' if op['t'] == 'F' else 'license'))
+    if case.get('hdecoys'):
+        ctx.count('fact:decoy-header')
+    if case.get('hdr') == 'own':
+        ctx.count('fact:own-header-object')
+    if case.get('early'):
+        ctx.count('fact:early-reads')
+    if case.get('late'):
+        ctx.count('fact:late-assignment')
+        for target, attr, _v in case['late']:
+            ctx.count('fact:late:%s' % ('header' if target == 'H' else attr))
+    if stats.get('late_after_dump'):
+        ctx.count('fact:late-after-first-dump')
+    if stats.get('reused'):
+        ctx.count('fact:reused-license-object', stats['reused'])
+    if stats.get('nonstrict_values'):
+        ctx.mon('M.nonstrict')
+        ctx.mon('M.nonstrict-value', stats['nonstrict_values'])
+    if stats.get('watched'):
+        ctx.mon('M.watch', stats['watched'])
+
+
+def _report_doc_findings(ctx, case, found):
+    seen = set()
+    for key, msg in found:
+        if key in seen:
+            continue
+        seen.add(key)
+        small = case
+        if ctx.viol_count[key] < 3:          # shrinking is only worth it for the witnesses that are kept
+            try:
+                small = shrink(case, key)
+            except Exception:
+                small = case
+            if small is not case:
+                again = [m for k, m in check_doc(small) if k == key]
+                if again:
+                    msg = again[0]
+                else:
+                    small = case
+        ctx.violation(key, msg, small)
+
+
+def run_lists(ctx, case):
+    if not lists_in_domain(case):
+        ctx.count('lists:outside-domain')
+        return
+    field = case['field']
+    lists = case['lists']
+    ctx.evaluations += max(0, len(lists) - 1)
+    stats = {}
+    found = check_lists(case, stats)
+    ctx.mon('M.list', stats.get('fresh', 0))
+    ctx.mon('M.list-reassigned', stats.get('reassigned', 0))
+    ctx.mon('M.list-reparsed', stats.get('reparsed', 0))
+    ctx.mon('M.list-kept', stats.get('kept', 0))
+    ctx.mon('M.list-doc', stats.get('doc', 0))
+    ctx.count('lists:%s' % field, len(lists))
+    if case.get('enumerated'):
+        ctx.count('lists:enumerated', len(lists))
+    for L in lists:
+        cls = list_punct_classes(L)
+        for cl in cls:
+            ctx.count('lists:%s:%s' % ('files' if field == 'files' else 'lines', cl))
+        if cls:
+            ctx.nontrivial(case={'lists': [field, L]})
+    seen = set()
+    for key, msg, index in found:
+        if key in seen:
+            continue
+        seen.add(key)
+        small = case
+        if ctx.viol_count[key] < 3:
+            try:
+                small = shrink_lists(case, key, index)
+            except Exception:
+                small = case
+            again = [m for k, m, _i in check_lists(small) if k == key]
+            if again:
+                msg = again[0]
+            else:
+                small = case
+        ctx.violation(key, msg, small)
+
+
+def run_multi(ctx, case):
+    if not multi_in_domain(case):
+        ctx.count('multi:outside-domain')
+        return
+    stats = {}
+    found = check_multi(case, stats)
+    docs = case['docs']
+    ctx.mon('M.multi')
+    ctx.mon('M.multi-doc', stats.get('docs', 0))
+    ctx.mon('M.multi-value', stats.get('values', 0))
+    ctx.mon('M.watch', stats.get('watched', 0))
+    ctx.count('multi:docs:%d' % len(docs))
+    if stats.get('reused'):
+        ctx.count('multi:reused-license-object', stats['reused'])
+    lic_sets = []
+    for d in docs:
+        final = final_values(d)
+        lic_sets.append(set(tuple(v['license']) for _t, v in final['paras']))
+        if len([1 for t, _v in final['paras'] if t == 'L']) >= 2:
+            ctx.count('multi:doc-with-license-paragraphs>=2')
+    if any(lic_sets[i] & lic_sets[j] for i in range(len(docs)) for j in range(i + 1, len(docs))):
+        ctx.count('multi:equal-license-in-two-documents')
+    if len(docs) >= 2:
+        ctx.nontrivial()
+    seen = set()
+    for key, msg, index in found:
+        if key in seen:
+            continue
+        seen.add(key)
+        # does the document show the same mechanism when it is built alone?  then it is an ordinary document witness
+        if index is not None:
+            alone = check_doc(docs[index])
+            if any(k == key for k, _m in alone):
+                _report_doc_findings(ctx, docs[index], [(k, m) for k, m in alone if k == key])
+                continue
+        key2 = key + MULTI_SUFFIX
+        small = case
+        if ctx.viol_count[key2] < 3:
+            try:
+                small = shrink_multi(case, key)
+            except Exception:
+                small = case
+        ctx.violation(key2, msg, small)
+
+
 def run_case(ctx, case):
     kind = case.get('kind')
     if kind == 'codec':
@@ -1295,6 +2318,12 @@ def run_case(ctx, case):
         ctx.evaluations += max(0, len(case['licenses']) - 1)
         for lic in case['licenses']:
             check_license(ctx, lic)
+        return
+    if kind == 'lists':
+        run_lists(ctx, case)
+        return
+    if kind == 'multi':
+        run_multi(ctx, case)
         return
     if kind != 'doc':
         ctx.count('unknown-case-kind')
@@ -1320,7 +2349,8 @@ def run_case(ctx, case):
     order = stats.get('order')
     if order is not None and order != sorted(order):
         ctx.count('feat:files-added-after-license')
-    ctx.count('paras:%d' % len(case.get('ops', [])))
+    ctx.count('paras:%d' % len(real_ops(case)))
+    _count_factory(ctx, case, stats)
     perm = stats.get('perm')
     if perm is not None:
         ctx.count('perm:%s' % perm)
@@ -1332,26 +2362,9 @@ def run_case(ctx, case):
         for cl in stats.get('perm_classes', ()):
             ctx.count('perm:%s' % cl)
         ctx.count('perm-input:%s' % case['input'])
-    if nontrivial:
+    if nontrivial or any(f.startswith('punct-') for f in feats):
         ctx.nontrivial()
-    seen = set()
-    for key, msg in found:
-        if key in seen:
-            continue
-        seen.add(key)
-        small = case
-        if ctx.viol_count[key] < 3:          # shrinking is only worth it for the witnesses that are kept
-            try:
-                small = shrink(case, key)
-            except Exception:
-                small = case
-            if small is not case:
-                again = [m for k, m in check_doc(small) if k == key]
-                if again:
-                    msg = again[0]
-                else:
-                    small = case
-        ctx.violation(key, msg, small)
+    _report_doc_findings(ctx, case, found)
 
 
 def finish(ctx):
